@@ -164,6 +164,9 @@ def run_case(case, rec, cid, begin=True):
             + off_args(rnd, "--offset2", case["offs2"])
         if case["total"]:
             argv.append("--as-total=" + case["total"])
+        dpf = case.get("dpf") or []
+        if dpf:      # a print format for the difference: the letters y m d h M s stand for its components, anything else is literal
+            argv.append(rnd.choice(["--print-format=", "-f=", "--format="]) + "".join(t_["d"] if t_["d"] != "lit" else chr(t_["c"]) for t_ in dpf))
         out, code, msg, esc = run_cli(argv, case["envcal"], case["sys"])
         parsed, d, tlen = False, proj_dur(None), [0, 0, 0]
         txt = out.strip()
@@ -176,11 +179,11 @@ def run_case(case, rec, cid, begin=True):
                     tlen, parsed = [I(dd), I(rem // MEG), I(rem % MEG)], True
                 except ValueError:
                     pass
-            else:
+            elif not dpf:
                 st, v = outcome(lambda: _DP.parse(txt))
                 if st == "ok":
                     parsed, d = True, proj_dur(v)
-        rec.ev("CliDiff", cid, g=case["g"], g2=case["g2"], offs=[proj_dur(mk_dur(x)) for x in case["offs"]],
+        rec.ev("CliDiff", cid, dpf=dpf, g=case["g"], g2=case["g2"], offs=[proj_dur(mk_dur(x)) for x in case["offs"]],
                offs2=[proj_dur(mk_dur(x)) for x in case["offs2"]], total=bool(case["total"]), tlen=tlen, parsed=parsed, d=d,
                out=render.codes(out), code=code, traceback=esc is not None, cls=type(esc).__name__ if esc else "", **cm)
         return True
@@ -320,7 +323,7 @@ def expand(job):
                     if fg["zform"] == "hh":
                         continue      # "+hh" alone would drop the minutes of the point's own offset
                 case["pf"] = {"kind": "iso", "g": fg, "fmt": dtxt + "T" + ttxt + ztxt, "lz": lz}
-            elif y < 0.40:
+            elif y < 0.42:
                 # a date-only print format, complete or reduced (year-month, year, year-week ...), in any representation
                 fg = pick_g(rnd, m, [f_ for f_ in forms if f_["wf"] and f_["tform"] == "none" and f_["dform"] != "c"])
                 fg["ds"] = []
@@ -343,9 +346,18 @@ def expand(job):
                 case["src"] = rnd.choice(["ref-opt", "ref-env"])
             yield case
         elif x < 0.7:
-            yield dict(base, kind="diff", g=pick_g(rnd, m, forms), g2=pick_g(rnd, m, forms),
-                       offs=[dict(rnd.choice(OFFS)) for _ in range(rnd.choice([0, 0, 1]))],
-                       offs2=[dict(rnd.choice(OFFS)) for _ in range(rnd.choice([0, 0, 1]))], total=rnd.choice([None, None, "s", "M", "h", "H"]))
+            case = dict(base, kind="diff", g=pick_g(rnd, m, forms), g2=pick_g(rnd, m, forms),
+                        offs=[dict(rnd.choice(OFFS)) for _ in range(rnd.choice([0, 0, 1]))],
+                        offs2=[dict(rnd.choice(OFFS)) for _ in range(rnd.choice([0, 0, 1]))], total=rnd.choice([None, None, "s", "M", "h", "H"]))
+            if case["total"] is None and rnd.random() < 0.3 and not any(isinstance(v_, float) for o_ in case["offs"] + case["offs2"] for v_ in o_.values()):
+                letters = rnd.choice(["dhMs", "ymdhMs", "d", "hM", "s", "dh"])
+                toks = []
+                for ch in letters:
+                    if toks:
+                        toks.append({"d": "lit", "c": ord(rnd.choice(",:-_ /T"))})
+                    toks.append({"d": ch, "c": 0})
+                case["dpf"] = toks
+            yield case
         elif x < 0.74:
             gd = {"neg": rnd.random() < 0.3, "wk": False, "w": 0, "ds": [], "sep": 44}
             for k_, hi in (("y", 30), ("mo", 40), ("d", 800), ("h", 100), ("mi", 3000), ("s", 100000)):
@@ -381,11 +393,17 @@ def expand(job):
                               "20000101T2460Z", "1999-12-31T24:01Z", "", "P1Y2Z", "2000-01-01T00:00:00+25:61x", "٢٠٠٠"])
             argv = rnd.choice([[bad], [bad, good], [good, bad], [good, "--offset=PT1X"], [good, "--offset", "garbage"], [good, good, "--offset2=P1"],
                                ["--as-total=s", bad], [bad, "--max=3"]])
+            if rnd.random() < 0.35:
+                # durations / offsets / intervals that match the notation's shape but whose numbers Python cannot convert, or
+                # that overflow date-time arithmetic: float() failures are plain ValueErrors, infinities raise OverflowError
+                odd = rnd.choice(["PT1.2.3H", "PT1,,5M", "PT1e400H", "PT6E999S", "-PT1e400M", "PT1.5.H", "PT.5S", "P1DT1e400S"])
+                argv = rnd.choice([["--as-total=s", rnd.choice(["PT1.2.3H", "PT1,,5M", "PT1.5.H"])], [good, "--offset=" + odd], [good, "--offset1", odd],
+                                   [good, good, "--offset2=" + odd], ["R/2020/" + odd], ["R3/" + odd + "/2020-01-01T00Z"], ["R2/2020-01-01T00Z/" + odd, "--max=2"]])
             yield dict(base, kind="bad", argv=argv)
 
 
 def jobs(tier, seed):
     forms, _ = c07.forms_from_tlc()
     if tier == "quick":
-        return [{"n": 220, "forms": forms, "seed": seed * 100 + j} for j in range(16)]
+        return [{"n": 500, "forms": forms, "seed": seed * 100 + j} for j in range(16)]
     return [{"n": 4000, "forms": forms, "seed": seed * 1000 + j} for j in range(32)]
